@@ -198,6 +198,16 @@ fn main() {
             for (k, v) in reasons { println!("{v:5} {k}"); }
             0
         }
+        "c14" => {
+            println!("VERIF_SEED={}", opts.seed);
+            warm_builtins(prng::mix(&[opts.seed, prng::purpose("warm")]));
+            props::c14::run(&opts)
+        }
+        "c16" => {
+            println!("VERIF_SEED={}", opts.seed);
+            warm_builtins(prng::mix(&[opts.seed, prng::purpose("warm")]));
+            props::c16::run(&opts)
+        }
         "c09" => {
             println!("VERIF_SEED={}", opts.seed);
             warm_builtins(prng::mix(&[opts.seed, prng::purpose("warm")]));
@@ -274,6 +284,8 @@ fn main() {
             let reproduced = match prop.as_str() {
                 "C13" => props::c13::replay(&file),
                 "C09" => props::c09::replay(&file),
+                "C14" => props::c14::replay(&file),
+                "C16" => props::c16::replay(&file),
                 _ => {
                     eprintln!("HARNESS ERROR: no replay for property {prop}");
                     std::process::exit(2);
